@@ -25,6 +25,7 @@ def gen(rng, tier, no, wide=False):
     # model is integer-time, so only the conservation clause (rows = critical edges, durations add up to the path's
     # weight) is decided there, directly on the implementation's numbers
     case["params"]["frac"] = rng.random() < 0.12
+    case["params"]["overlay_first"] = rng.random() < 0.3
     return case
 
 
@@ -82,6 +83,13 @@ def observe(case):
             canon["crit_edges"] = sorted([int(e.begin), int(e.end)] for e in g.critical_path_edges_set)
             try:
                 from hta.utils.utils import shorten_name
+                if case["params"].get("overlay_first"):
+                    # history at the level of the graph object: the overlay file is written first (both edge
+                    # selections), the breakdown is asked for afterwards
+                    odir = os.path.join(os.path.dirname(files[case["params"]["rank"]]), "overlay_first")
+                    for oc, sa in ((False, False), (True, False)):
+                        with contextlib.suppress(Exception), contextlib.redirect_stdout(io.StringIO()):
+                            ta.overlay_critical_path_analysis(case["params"]["rank"], g, odir, only_show_critical_events=oc, show_all_edges=sa)
                 bd = g.get_critical_path_breakdown()
                 canon["breakdown"] = sorted([[None if C.isnan(r["event_idx"]) else int(r["event_idx"]), C.num(r["duration"]), CP.ETYPES[r["type"]],
                                               str(r["bound_by"]), None if C.isnan(r["stream"]) else int(r["stream"])] for r in bd.to_dict("records")], key=str)
